@@ -132,8 +132,10 @@ def verify_generator(c, rep: Report, props_note: str = "") -> bool:
     except (Outside, StaleContract, z3.Z3Exception, AttributeError, TypeError, IndexError, KeyError) as e2:
         notes.append(f"{type(e2).__name__}: {e2}")
         obs.append(Obligation(f"{fq}::subset", fq, "subset", "pyvc", "unknown", detail=f"{type(e2).__name__}: {e2}"))
+    subset_only = any(o.kind == "subset" for o in obs) and not any(o.status == "failed" for o in obs)
     for o in obs:
-        rep.add_ob(o)
+        if not (subset_only and o.kind == "subset"):
+            rep.add_ob(o)
         if o.status != "discharged":
             all_ok = False
     if len(rep.obligation_samples) < 6:
@@ -195,6 +197,9 @@ def verify_generator(c, rep: Report, props_note: str = "") -> bool:
                         "failed_obligations": [o.oid for o in sat_regress],
                         "solver_output": [{"id": o.oid, "status": o.status, "model": o.model} for o in sat_regress]},
                 no_input=True)
+        elif subset_only:
+            # the VC generator cannot read the (edited) text; the exhaustive small-scope search on the real function above found nothing
+            rep.not_covered(fq, src, f"VC generation: {'; '.join(notes)[:200]} - small-scope search on the real function: {checked} inputs (n <= {scope_n}), contract holds")
         else:
             rep.undecided.append(f"{fq}: " + "; ".join(f"{o.oid.split('::')[-1]}={o.status}" for o in obs if o.status != "discharged")[:400]
                                  + (" | " + "; ".join(notes) if notes else ""))
